@@ -170,6 +170,11 @@ namespace xsimd
     XSIMD_INLINE auto
     aligned_allocator<T, A>::allocate(size_type n, const void*) -> pointer
     {
+#if defined(_CPPUNWIND) || defined(__cpp_exceptions)
+        // sizeof(T) * n must be representable, otherwise a too small block would be returned
+        if (n > max_size())
+            throw std::bad_alloc();
+#endif
         pointer res = reinterpret_cast<pointer>(aligned_malloc(sizeof(T) * n, A));
 #if defined(_CPPUNWIND) || defined(__cpp_exceptions)
         if (res == nullptr)
